@@ -27,13 +27,15 @@ def extra_tie(tier, rng):
 def oracle(tier, rng, seeds):
     fl, st = effects.history_search(rng, 3 if tier == 'quick' else 40, 40 if tier == 'quick' else 120)
     fl2, st2 = effects.directed_history_search(rng, 90 if tier == 'quick' else 600)
-    fails = [Failure(f['what'], {'history': f['history']}) for f in fl + fl2]
+    fails = [Failure(f['what'], {'history': f['history'], 'mutate_first': f.get('mutate_first', False)}) for f in fl + fl2]
     st.update(st2)
     return fails, {'evaluations': st['history_calls'] + st2['directed_history_calls'], 'distinct_nontrivial': st['history_calls'] + st2['directed_history_calls'], 'failing': len(fails), **st,
                    'samples': [{'history': 'random API calls, e.g. lonlat_to_cell((lon,lat),r), cell_to_boundary(c, opts), compact([...])'}]}
 
 def replay(f):
     h = f.get('data', {}).get('history')
+    if h and f.get('data', {}).get('mutate_first'):
+        return effects.run_mutate_first(h[0][0], tuple(h[0][1]))
     if h:
         return effects.run_history([(c[0], tuple(c[1])) for c in h])
     fl, _ = effects.history_search(random.Random(0), 3, 40)
